@@ -522,11 +522,20 @@ def ob_idmap(ctx, res):
         if len(gid) != 1 or len(errs) != 1 or not (errs[0].order < gid[0].order):
             res.fail("idmap/%s/unknown-chrom" % name, f2, "an unknown chromosome must be refused (InvalidChromosome) before an id is allocated")
             continue
-        m = errs[0]
-        while m is not None and m.k != "match":
+        from ..astq import opt_dispatch
+        m = errs[0].parent
+        scr = None
+        while m is not None and isinstance(m, Node):
+            d = opt_dispatch(m) if m.k in ("match", "if", "let") else None
+            if d is not None and d[3] is not None and any(x is errs[0] for x in walk_no_nested_fn(d[3])):
+                scr = d[0]
+                break
             m = m.parent
-        if m is None or ".get(" not in up(m["scrut"]) or "p4" not in origin(f2, m["scrut"]):
-            res.fail("idmap/%s/lookup" % name, f2, "the refusal must be the None arm of chrom_sizes.get(chrom)")
+        if scr is None:
+            res.undecided("idmap/%s/lookup" % name, f2, "the InvalidChromosome refusal is not the None outcome of an Option dispatch the rule recognises")
+            continue
+        if ".get(" not in up(scr) or "p4" not in origin(f2, scr):
+            res.fail("idmap/%s/lookup" % name, f2, "the refusal must be the None arm of chrom_sizes.get(chrom); it dispatches on `%s`" % up(scr)[:60])
             continue
         sc = [c for c in walk_no_nested_fn(f2.body) if c.k == "call" and up(c["func"]) in ("setup_chrom",)]
         if sc and not (gid[0].order < sc[0].order):
